@@ -152,6 +152,12 @@ def run_once(ctx):
                 res.findings.append(Finding("boot:tls-twin:" + l0.split(":")[-1].split(" ")[0],
                                             "step %r: plain %s / TLS %s" % (l0, x0[:3], x1[:3]), {"engine": "boot"}))
                 break
+        for label, ok in boot.cli_tls(tls_bin):
+            res.evaluations += 1
+            res.distinct.add("cli:" + label)
+            if not ok:
+                res.findings.append(Finding("boot:cli-override:" + label, "command line TLS options: " + label + " failed",
+                                            {"engine": "boot"}))
         # the reference model does not know about transports: E1 histories over TLS must conform to it as well
         from .. import e1
         prof = {"name": "c20-tls", "tls": True, "max_clients": 4, "hostile_masks": False}
